@@ -30,6 +30,10 @@ CLAIMED = {
          "Deductive proof for every sequence of requests and ticks (nondeterministic select, havoc'd received values, symbolic clock): a request is forwarded only on the channel the routing table holds for the chain id it names (no narrowing), only when that (chain, tx) is not in the cache, the cache grows only when a send happened, the purge removes exactly entries older than 11 minutes, and every send sits in a select with default.",
          "Trusted: govc, SMT solvers; ghost monotone clock for clock.Now (ticker phase arbitrary); hex.EncodeToString uninterpreted; goroutine scheduling and channel fairness not modelled (not needed: one goroutine); received requests assumed non-nil.",
          "DESIGN.md §3-C17"),
+ "C20": ("per-subscriber iteration contract on Publish (delivered iff matches, bytes exact, no other channel touched) with loop invariants, non-blocking obligation on every send under the mutex, contract on decodeEmitterAddr; SMT",
+         "Deductive proof for every subscription table and VAA: in each iteration Publish sends on the subscriber's channel iff the subscriber has no filters or a filter equal to the VAA's emitter chain and address, the bytes sent are the published bytes and no other subscriber's channel is touched. The independence clause is the non-blocking obligation on the two sends under subsMu; both fail on the current tree and are recorded as known findings (replayed on the real code: a stalled subscriber blocks Publish and the mutex).",
+         "Trusted: govc, SMT solvers; vaa.Unmarshal through its verified contract; sync.Mutex not modelled (only 'a send under it must not block'); gRPC stream fairness not modelled. Duplicate delivery when two filters match is not excluded by the statement and not checked.",
+         "DESIGN.md §3-C20"),
 }
 
 NA = {
